@@ -13,9 +13,11 @@ import (
 	"net"
 	"net/netip"
 	"os"
+	"runtime"
 	"sort"
 	"strings"
 	"sync"
+	"sync/atomic"
 	"syscall"
 	"testing"
 	"time"
@@ -629,4 +631,43 @@ func (n *simNet) adjOutEligible(addr string) (map[simRouteKey]simRoute, error) {
 		return nil
 	}, true)
 	return out, err
+}
+
+// simInstallYield installs the schedule-diversifying yield hook (build tag verif) for one case and
+// returns (signature of the order in which yield points were passed, number of points passed,
+// uninstall). Virtual sleeps are only used where gobgp holds no lock ("bucket" is inside the shared
+// read lock: a sleeper there would stop virtual time for ever because a goroutine waiting for the
+// write lock is not durably blocked).
+func simInstallYield(seed uint64, allowSleep bool) (sig func() uint64, count func() int64, uninstall func()) {
+	var n atomic.Int64
+	var sg atomic.Uint64
+	verifHookPtr.Store(&verifHooks{yield: func(point, peer string) {
+		x := uint64(n.Add(1))*0x9E3779B97F4A7C15 ^ seed
+		x ^= x >> 29
+		x *= 0xBF58476D1CE4E5B9
+		x ^= x >> 32
+		for {
+			old := sg.Load()
+			if sg.CompareAndSwap(old, old*1099511628211^uint64(len(point))^uint64(len(peer))<<8^uint64(point[0])<<16) {
+				break
+			}
+		}
+		switch x & 7 {
+		case 0, 1, 2:
+			runtime.Gosched()
+		case 3:
+			runtime.Gosched()
+			runtime.Gosched()
+			runtime.Gosched()
+		case 4:
+			// (a sleeping goroutine is durably blocked: synctest.Wait() would report quiescence while
+			// gobgp still has work in hand, so checks that compare at quiescence must not allow sleeps)
+			if allowSleep && point != "bucket" {
+				time.Sleep(time.Duration(x>>8&1023) * time.Microsecond)
+			} else {
+				runtime.Gosched()
+			}
+		}
+	}})
+	return sg.Load, n.Load, func() { verifHookPtr.Store(nil) }
 }
